@@ -249,9 +249,9 @@ def doc_body(rng):
     tags = []
     for _ in range(rng.choice([0, 0, 1, 2])):
         tags.append([rng.choice(TAGS)] + [rng.choice(DOC_WORDS) for _w in range(rng.randint(0, 3))])
-    if not paras and not tags:
+    if not paras and not tags and rng.random() < 0.7:
         paras = [[[rng.choice(DOC_WORDS)]]]
-    return {"paras": paras, "tags": tags}
+    return {"paras": paras, "tags": tags}      # may be empty: `/** */` documents with the empty text
 
 
 def render_doc(body, rng, nl="\n", indent="  "):
@@ -263,6 +263,8 @@ def render_doc(body, rng, nl="\n", indent="  "):
             lines.append(" ".join(ln))
     for tg in body["tags"]:
         lines.append(" ".join(tg))
+    if not lines:
+        return rng.choice(["/** */", "/**  */", "/**" + nl + indent + " */"])
     one = len(lines) == 1 and rng.random() < 0.5
     if one:
         return "/** " + lines[0] + " */"
